@@ -7,6 +7,7 @@ import (
 	"github.com/atlassian/gostatsd"
 	"github.com/atlassian/gostatsd/internal/lexer"
 	"github.com/atlassian/gostatsd/internal/pool"
+	"github.com/atlassian/gostatsd/pkg/backends/statsdaemon"
 )
 
 // C19: every event is delivered once to every backend with its fields intact.
@@ -185,3 +186,27 @@ func VerifC19_Twin() {
 }
 
 var _ = time.Second
+
+// VerifC17_EventViaParser: what the statsd relay emits for an event is parsed back by the real
+// DatagramParser (which splits datagrams on newlines) to the same event. The title may contain
+// any byte but NUL (an event ingested over HTTP may carry a newline in its title).
+func VerifC17_EventViaParser() {
+	tb := nondetBytes(2)
+	verifAssume(tb[0] != 0 && tb[1] != 0)
+	e := &gostatsd.Event{Title: string(tb), Text: "x", DateHappened: 5}
+	msg := statsdaemon.VerifConstructEventMessage(e).Bytes()
+	rec := &verifRecorder{}
+	mp := pool.NewMetricPool(0)
+	dp := verifNewParser("", false, rec, mp)
+	l := &lexer.Lexer{MetricPool: mp}
+	_, nEvents, nBad := dp.handleDatagram(context.Background(), l, 5, "1.1.1.1", append([]byte{}, msg...))
+	if tb[0] == '\n' || tb[1] == '\n' {
+		verifAssert(nEvents == 1 && nBad == 0 && len(rec.events) == 1 && rec.events[0].Title == e.Title, "relayed event whose title contains a newline does not parse back")
+		return
+	}
+	verifAssert(nEvents == 1 && nBad == 0 && len(rec.events) == 1, "relayed event parses back through the datagram parser")
+	if len(rec.events) == 1 {
+		verifAssert(rec.events[0].Title == e.Title && rec.events[0].Text == "x" && rec.events[0].DateHappened == 5, "relayed event fields through the datagram parser")
+	}
+	verifReach("via-parser")
+}
